@@ -1,5 +1,8 @@
 import OW.Num
-/- util/fn/root.go — `FindRoot`, line by line; the iteration loop takes `maxIterations` as fuel. -/
+/- util/fn/root.go — `FindRoot`, line by line; the iteration loop takes `maxIterations` as fuel.
+Ghost components (not results of the Go function): `evals` = every point at which `fn` was called,
+`devals` = every point at which `fn_dx` was called, both most recent first. The harness wraps the real
+callbacks to log the same points, so the ghosts are part of the correspondence. -/
 namespace OW.Fn
 open OW
 
@@ -9,11 +12,19 @@ structure Bracket (α : Type) where
   maxX : α
   maxDelta : α
 
+/-- `halvingX := maxX - (maxX-minX)*0.5` -/
+def halvingX {α} [Num α] (b : Bracket α) : α := b.maxX - (b.maxX - b.minX) * 0.5
+
+/-- `bisectionX := maxX - (maxX-minX)*maxDelta/(maxDelta-minDelta)` (the secant point), then clamped into
+`[minX, maxX]` by two comparisons (repair fixes/findroot_secant_clamp.diff: in floating point the unclamped value can
+round to one ulp outside the bracket; a NaN from `0/0` passes through both comparisons unchanged). -/
+def secantX {α} [Num α] (b : Bracket α) : α :=
+  let s := b.maxX - (b.maxX - b.minX) * b.maxDelta / (b.maxDelta - b.minDelta)
+  if s < b.minX then b.minX else if b.maxX < s then b.maxX else s
+
 /-- `trialXs` of one iteration -/
 def trialXs {α} [Num α] (f' : Option (α → α)) (x delta : α) (b : Bracket α) : List α :=
-  let halvingX := b.maxX - (b.maxX - b.minX) * 0.5
-  let bisectionX := b.maxX - (b.maxX - b.minX) * b.maxDelta / (b.maxDelta - b.minDelta)
-  let base := [halvingX, bisectionX]
+  let base := [halvingX b, secantX b]
   match f' with
   | none => base
   | some d =>
@@ -27,13 +38,20 @@ def trialXs {α} [Num α] (f' : Option (α → α)) (x delta : α) (b : Bracket 
 structure Inner (α : Type) where
   b : Bracket α          -- minTrialX, minTrialDelta, maxTrialX, maxTrialDelta
   hit : Nat              -- hitConvergenceLimit
-  evals : List α := []   -- ghost: points at which `fn` was evaluated (most recent first)
+  evals : List α         -- ghost
 
-/-- one trial; `.inl (x, delta)` = early `return` -/
-def trialStep {α} [Num α] (f : α → α) (tol conv x : α) (s : Inner α) (trial : α) : (α × α) ⊕ Inner α :=
+/-- result: `(x, delta)` of the Go function + ghosts -/
+structure Res (α : Type) where
+  x : α
+  delta : α
+  evals : List α
+  devals : List α
+
+/-- one trial; `.inl (x, delta, evals)` = early `return` -/
+def trialStep {α} [Num α] (f : α → α) (tol conv x : α) (s : Inner α) (trial : α) : (α × α × List α) ⊕ Inner α :=
   let hit := if Num.abs (x - trial) < conv then s.hit + 1 else s.hit
   let trialDelta := f trial
-  if Num.abs trialDelta < tol then .inl (trial, trialDelta)
+  if Num.abs trialDelta < tol then .inl (trial, trialDelta, trial :: s.evals)
   else
     let b := s.b
     let b' : Bracket α :=
@@ -43,36 +61,40 @@ def trialStep {α} [Num α] (f : α → α) (tol conv x : α) (s : Inner α) (tr
         (if trial < b.maxX ∧ b.minX ≤ trial then { b with maxX := trial, maxDelta := trialDelta } else b)
     .inr { b := b', hit := hit, evals := trial :: s.evals }
 
-def trialLoop {α} [Num α] (f : α → α) (tol conv x : α) : Inner α → List α → (α × α) ⊕ Inner α
+def trialLoop {α} [Num α] (f : α → α) (tol conv x : α) : Inner α → List α → (α × α × List α) ⊕ Inner α
   | s, [] => .inr s
   | s, t :: ts =>
     match trialStep f tol conv x s t with
     | .inl r => .inl r
     | .inr s' => trialLoop f tol conv x s' ts
 
-/-- the `for iteration` loop; returns `(x, delta)` -/
+/-- `x, delta` chosen after the trial loop: the end with the smaller residual -/
+def pick {α} [Num α] (nb : Bracket α) : α × α :=
+  if Num.abs nb.minDelta ≤ nb.maxDelta then (nb.minX, nb.minDelta) else (nb.maxX, nb.maxDelta)
+
+/-- the `for iteration` loop -/
 def iterate {α} [Num α] (f : α → α) (f' : Option (α → α)) (tol conv : α) :
-    Nat → α → α → Bracket α → α × α
-  | 0, x, delta, _ => (x, delta)
-  | fuel + 1, x, delta, b =>
+    Nat → α → α → Bracket α → List α → List α → Res α
+  | 0, x, delta, _, ev, dev => ⟨x, delta, ev, dev⟩
+  | fuel + 1, x, delta, b, ev, dev =>
     let ts := trialXs f' x delta b
-    match trialLoop f tol conv x { b := b, hit := 0 } ts with
-    | .inl r => r
+    let dev' := if f'.isSome then x :: dev else dev
+    match trialLoop f tol conv x { b := b, hit := 0, evals := ev } ts with
+    | .inl (rx, rd, ev') => ⟨rx, rd, ev', dev'⟩
     | .inr s =>
       let nb := s.b
-      let (x', delta') :=
-        if Num.abs nb.minDelta ≤ nb.maxDelta then (nb.minX, nb.minDelta) else (nb.maxX, nb.maxDelta)
-      if s.hit == ts.length then (x', delta')
-      else iterate f f' tol conv fuel x' delta' nb
+      let p := pick nb
+      if s.hit == ts.length then ⟨p.1, p.2, s.evals, dev'⟩
+      else iterate f f' tol conv fuel p.1 p.2 nb s.evals dev'
 
 /-- `FindRoot(fn, fn_dx, initialX, minX, maxX, tolerance, convergenceLimit, maxIterations)`;
-`.error` = `panic("Invalid range")`. -/
+`.error` = `panic("Invalid range")`. Evaluation order of the prologue: `fn(initialX)`, `fn(maxX)`, `fn(minX)`. -/
 def findRoot {α} [Num α] (f : α → α) (f' : Option (α → α)) (initialX minX maxX tol conv : α) (maxIter : Nat) :
-    Except String (α × α) :=
+    Except String (Res α) :=
   let delta := f initialX
   let maxDelta := f maxX
   let minDelta := f minX
   if 0 < minDelta ∨ maxDelta < 0 then .error "other"
-  else .ok (iterate f f' tol conv maxIter initialX delta ⟨minX, minDelta, maxX, maxDelta⟩)
+  else .ok (iterate f f' tol conv maxIter initialX delta ⟨minX, minDelta, maxX, maxDelta⟩ [minX, maxX, initialX] [])
 
 end OW.Fn
